@@ -251,6 +251,30 @@ func (x *Exec) modifiesToSet(spec *FuncSpec, ms *ModSet, argTypes map[string]typ
 				}
 				continue
 			}
+			if strings.HasPrefix(m, "mapof(") && strings.HasSuffix(m, ")") {
+				// mapof(p.f): the contents of the map held in field f (every map of that type is havocked)
+				parts := strings.Split(strings.TrimSuffix(strings.TrimPrefix(m, "mapof("), ")"), ".")
+				done := false
+				if len(parts) == 2 {
+					if t, ok := argTypes[parts[0]]; ok {
+						if _, _, ft := fieldOf(t, parts[1]); ft != nil {
+							if mt, ok := ft.Underlying().(*types.Map); ok {
+								if dom, ds, vals, vs, ok := x.mapArrs(mt); ok {
+									ms.heap[dom] = ds
+									for k := range vals {
+										ms.heap[vals[k]] = vs[k]
+									}
+									done = true
+								}
+							}
+						}
+					}
+				}
+				if !done {
+					x.bindingFailure(fmt.Sprintf("modifies clause %q of %s does not resolve", m, spec.Key))
+				}
+				continue
+			}
 			if strings.Contains(m, "ptr(") {
 				// ptr(T, e).f  /  elems(ptr(T, e).f): e is any contract expression over the parameters
 				// (typically iref(h) for an interface-typed parameter)
